@@ -104,3 +104,42 @@ def run(ck):
     reach = cg.reach(hosts)
     bad = reach & (cal | {LL + "Link::<V>::borrow_mut"})
     ck.ob("WHO", "v1::host::*", "cannot-write-persistent-nodes", len(hosts) >= 25 and not bad, "%d host functions, %d reachable functions, none may call Link::borrow_mut" % (len(hosts), len(reach)), "")
+
+    # checkpoint isolation: a node copied into a newer generation gets a FRESH entry slot for its value; the older
+    # generation's slot is never shared, otherwise a write/delete in the newer generation edits it in place and a rollback
+    # does not restore it
+    f = getfn(ck, "sc", E, LL + "MutableNode::migrate")
+    if f:
+        vops = []
+        for bi in f.reachable():
+            for st in f.stmts(bi):
+                rv = st.get("rv", {})
+                if rv.get("k") == "agg" and rv.get("agg") == "adt" and rv.get("adt", "").endswith("low_level::MutableNode") and "value" in rv.get("fields", []):
+                    vops.append((bi, rv["ops"][rv["fields"].index("value")]))
+        if ck.anchor(len(vops) >= 1, "DEFUSE", f.path, "constructs the migrated node"):
+            for (bi, vop) in vops:
+                o = f.origins(vop, deep=True)
+                fresh = has_call_origin(o, r"Vec::<.*>::len$")
+                shared, how = False, ""
+                maps = [(mb, mt) for (mb, mt) in f.calls(r"Option::<T>::(map|and_then|map_or|map_or_else)$") if ("call", mt["f"]["path"], mb) in o]
+                if ("field", "value") in o and not maps:
+                    shared, how = True, "self.value flows into the new node's value"
+                for (mb, mt) in maps:
+                    clos = []
+                    for x in mt["args"][1:]:
+                        pl = op_place(x)
+                        for (b2, si, it) in (f.defs().get(pl[0], []) if pl else []):
+                            if si != "t" and it["rv"].get("k") == "agg" and it["rv"].get("agg") == "closure":
+                                clos.append(it["rv"]["closure"])
+                    for cp in clos:
+                        for cb in c.get_all(cp):
+                            g = Fn(cb)
+                            og = g.origins(0, deep=True)
+                            fresh = fresh or has_call_origin(og, r"Vec::<.*>::len$")
+                            if ("arg", 2) in g.origins(0):
+                                shared, how = True, "the closure passed to Option::%s returns the old entry index on some path" % mt["f"]["name"]
+                    if not clos:
+                        shared, how = True, "self.value is mapped by a function that could not be resolved"
+                ck.ob("DEFUSE", f.path, "fresh-entry-slot-per-generation", fresh and not shared,
+                      "the migrated node's value index is entries.len() taken before the push of the copied entry; the old index is only used to read the entry" if fresh and not shared else
+                      "the migrated node can keep the OLD generation's entry index (%s): both generations then share one entry slot" % (how or "no fresh index from entries.len()"), f.loc(bi))
